@@ -142,23 +142,49 @@ pub fn build(p: P) -> Scenario<Arc<CS>> {
     let finish = move |s: Arc<CS>, e: &mut Exec| -> Result<u64, String> {
         // single-threaded drain, then drop the channel
         let mut n = 0;
-        while do_recv(&s.ch) {
-            n += 1;
-            if n > 6 {
-                return Err("C06: more than 6 values drained from a 5-slot channel".into());
+        let mut drain_panic: Option<String> = None;
+        loop {
+            let r = std::panic::catch_unwind(std::panic::AssertUnwindSafe(|| do_recv(&s.ch)));
+            match r {
+                Ok(true) => {
+                    n += 1;
+                    if n > 6 {
+                        return Err("C06: more than 6 values drained from a 5-slot channel".into());
+                    }
+                }
+                Ok(false) => break,
+                Err(p) => {
+                    drain_panic = Some(p.downcast_ref::<&str>().map(|x| x.to_string()).or_else(|| p.downcast_ref::<String>().cloned()).unwrap_or_default());
+                    sched::log("recv_ret", NONE_ID, 9);
+                    break;
+                }
             }
         }
         CH_PTR.store(std::ptr::null_mut(), Ordering::SeqCst);
         let s = Arc::try_unwrap(s).map_err(|_| "state still shared".to_string())?;
         drop(s);
-        if !e.panics.is_empty() {
-            return Err(format!("C08: channel operation panicked: {:?}", e.panics));
+        let panicked = if !e.panics.is_empty() {
+            Some(format!("C08: channel operation panicked: {:?}", e.panics))
+        } else {
+            drain_panic.map(|m| format!("C08: recv panicked while the channel was drained at the end: {}", m))
+        };
+        if prop == "C08" {
+            if let Some(m) = panicked {
+                return Err(m);
+            }
         }
-        check_log(&e.log, prop)
+        // the history oracles (C06 / C07) judge what happened up to the panic as well
+        match check_log(&e.log, prop) {
+            Err(m) => Err(m),
+            Ok(d) => match panicked {
+                Some(m) => Err(m),
+                None => Ok(d),
+            },
+        }
     };
     Scenario {
         name: p.name.to_string(),
-        opts: Opts { stale_reads: p.stale, stale_depth: 3, max_spurious: p.spurious, horizon: 20_000, log_ops: false, log_handler_ops: false, reduce: false, no_discipline: false, nest_value_t1: 0 },
+        opts: Opts { stale_reads: p.stale, stale_depth: 3, max_spurious: p.spurious, horizon: 20_000, log_ops: false, log_handler_ops: false, reduce: false, no_discipline: false, nest_value_t1: 0, post_points: true },
         signals: vec![libc::SIGUSR1],
         setup: Box::new(setup),
         threads,
@@ -375,20 +401,20 @@ pub fn scenarios(prop: &str, tier: Tier) -> Vec<Item> {
     let q = tier == Tier::Quick;
     // two threads, every interleaving
     v.push(item(build(p("p1x1_c1x1_unbounded", (0, 0), &[1], &[1], &[], 0, false, 0)), None, "1 send vs 1 recv, fresh, every interleaving"));
-    v.push(item(build(p("p1x2_c1x2_unbounded", (0, 0), &[2], &[2], &[], 0, false, 0)), if q { Some(3) } else { None }, "2 sends vs 2 recvs, fresh"));
+    v.push(item(build(p("p1x2_c1x2_unbounded", (0, 0), &[2], &[2], &[], 0, false, 0)), None, "2 sends vs 2 recvs, fresh, every interleaving"));
     v.push(item(build(p("p1x1_p2x1_unbounded", (2, 1), &[1, 1], &[], &[], 0, false, 0)), None, "2 producers racing on the queues, rotated start (k=2,j=1)"));
     // weak memory + spurious failures
-    v.push(item(build(p("p1x2_c1x2_weak", (1, 0), &[2], &[2], &[], 0, true, 1)), Some(if q { 2 } else { 3 }), "stale reads + 1 spurious CAS failure in the bound"));
-    v.push(item(build(p("p2_c1_weak", (0, 1), &[1, 1], &[2], &[], 0, true, 1)), Some(if q { 2 } else { 3 }), "2 producers + consumer, stale reads + spurious"));
+    v.push(item(build(p("p1x2_c1x2_weak", (1, 0), &[2], &[2], &[], 0, true, 1)), Some(if q { 3 } else { 4 }), "stale reads + 1 spurious CAS failure in the bound"));
+    v.push(item(build(p("p2_c1_weak", (0, 1), &[1, 1], &[2], &[], 0, true, 1)), Some(if q { 3 } else { 4 }), "2 producers + consumer, stale reads + spurious"));
     // fullness: 4 in, two producers compete for the last slot, consumer frees one
-    v.push(item(build(p("full_p2_c1", (3, 4), &[1, 1], &[1], &[], 0, false, 0)), Some(if q { 2 } else { 3 }), "4 values in (rotated k=3), 2 producers + 1 consumer: discard rule"));
-    v.push(item(build(p("full5_p1_c1", (5, 5), &[2], &[1], &[], 0, true, 0)), Some(if q { 2 } else { 3 }), "5 values in (k=5): discard only while full, with stale reads"));
+    v.push(item(build(p("full_p2_c1", (3, 4), &[1, 1], &[1], &[], 0, false, 0)), Some(if q { 3 } else { 4 }), "4 values in (rotated k=3), 2 producers + 1 consumer: discard rule"));
+    v.push(item(build(p("full5_p1_c1", (5, 5), &[2], &[1], &[], 0, true, 0)), Some(if q { 3 } else { 4 }), "5 values in (k=5): discard only while full, with stale reads"));
     // nested send interrupting send / recv on the same thread
-    v.push(item(build(p("nested_in_send", (1, 3), &[2], &[1], &[1], 1, false, 0)), Some(if q { 2 } else { 3 }), "a send in a signal handler interrupts a send (every boundary)"));
-    v.push(item(build(p("nested_in_recv", (2, 2), &[1], &[2], &[2], 1, false, 0)), Some(if q { 2 } else { 3 }), "a send in a signal handler interrupts a recv (every boundary)"));
-    v.push(item(build(p("nested_twice_full", (4, 4), &[1], &[2], &[1, 2], 2, false, 1)), Some(if q { 2 } else { 3 }), "up to 2 nested sends on either thread near full, 1 spurious failure"));
+    v.push(item(build(p("nested_in_send", (1, 3), &[2], &[1], &[1], 1, false, 0)), Some(if q { 3 } else { 4 }), "a send in a signal handler interrupts a send (every boundary)"));
+    v.push(item(build(p("nested_in_recv", (2, 2), &[1], &[2], &[2], 1, false, 0)), Some(if q { 3 } else { 4 }), "a send in a signal handler interrupts a recv (every boundary)"));
+    v.push(item(build(p("nested_twice_full", (4, 4), &[1], &[2], &[1, 2], 2, false, 1)), Some(if q { 3 } else { 4 }), "up to 2 nested sends on either thread near full, 1 spurious failure"));
     // two consumers
-    v.push(item(build(p("p1x2_c2", (0, 1), &[2], &[1, 1], &[], 0, false, 0)), Some(if q { 2 } else { 3 }), "two consumers (MPMC mode)"));
+    v.push(item(build(p("p1x2_c2", (0, 1), &[2], &[1, 1], &[], 0, false, 0)), Some(if q { 3 } else { 4 }), "two consumers (MPMC mode)"));
     if !q {
         v.push(item(build(p("p2x2_c1x3_weak", (2, 0), &[2, 2], &[3], &[], 0, true, 1)), Some(3), "2x2 sends vs 3 recvs"));
         v.push(item(build(p("p1x3_c1x3_rot4", (4, 1), &[3], &[3], &[2], 1, true, 0)), Some(3), "3 sends vs 3 recvs from rotated k=4 start with nested send in consumer"));
